@@ -789,9 +789,13 @@ namespace randomx {
 			state.emit(rvi(rv64::SUB, regR(isn.dst), regR(isn.dst), regR(isn.src)));
 		}
 		else {
-			int32_t imm = unsigned32ToSigned2sCompl(-isn.getImm32()); //convert to add
-			//x{dst} = x{dst} + {-imm}
-			emitImm32(state, imm, regR(isn.dst), regR(isn.dst), Tmp1Reg);
+			//Subtract the sign-extended immediate. Adding the negated 32-bit value is wrong
+			//for imm32 = 0x80000000 (the negation wraps and is sign-extended to -2^31).
+			int32_t imm = unsigned32ToSigned2sCompl(isn.getImm32());
+			//x8 = {imm}
+			emitImm32(state, imm, Tmp1Reg);
+			//sub x{dst}, x{dst}, x8
+			state.emit(rvi(rv64::SUB, regR(isn.dst), regR(isn.dst), Tmp1Reg));
 		}
 	}
 
